@@ -9,7 +9,6 @@ Graph.tla in C11, Binned.tla in C10.)
   Signature.tla   mutation types of single-base substitutions in their sequence context (variants/mutation_signature.py)
   Matrix.tla      numeric matrices as delimited text: parse_matrix and matrix_to_csv (io/matrix_dump.py)
   Annotation.tla  gene / transcript / exon tables and their ids from GTF and GFF3 attribute text (datatypes/gtf.py)
-  Regex.tla       motif patterns (letters, '.', classes, gaps) rolled over ragged sequences (sequence/string_matcher.py)
   Join.tla        left join of two key-grouped streams (streams/left_join.py)
   Consensus.tla   single-base variants applied to reference sequences (variants/consensus.py)
   Csv.tla         delimited files with a header line read into a user-defined table type by column name (io/delimited_buffers.py)
@@ -131,46 +130,6 @@ def check_matrix(v):
             bad.append({"what": "matrix_to_csv differs from header and rows joined by the separator", "tags": {"spec": "Matrix", "op": "matrix_to_csv", "row_names": bool(rows), "layout": layout},
                         "vector": v, "expected": txt(v["csv"]), "observed": o})
     return {"n": n, "nt": [json.dumps(["matrix", data, rows, cols])] if len(data) > 1 or len(cols) > 1 else [], "bad": bad}
-
-
-LET = "ACT"
-
-
-def check_regex(v):
-    """One state of spec/Regex.tla: the pattern rolled over the ragged sequences."""
-    import bionumpy as bnp
-    from bionumpy.sequence.string_matcher import RegexMatcher
-    from bionumpy.encodings.alphabet_encoding import AlphabetEncoding
-    rows, pat = v["rows"], v["pat"]
-    texts = ["".join(LET[c - 1] for c in r) for r in rows]
-
-    def render(e):
-        if e["kind"] == "lit":
-            return LET[e["c"] - 1]
-        if e["kind"] == "any":
-            return "."
-        if e["kind"] == "cls":
-            return "[" + "".join(LET[c - 1] for c in sorted(e["set"])) + "]"
-        return ".{%d,%d}" % (e["lo"], e["hi"])
-    ptxt = "".join(render(e) for e in pat)
-    if not any(texts):
-        return {"n": 0, "nt": [], "bad": []}
-    bad = []
-    want = [[bool(x) for x in r] for r in v["result"]]
-    for ename, enc in (("ACT", AlphabetEncoding("ACT")), ("ACGT", bnp.DNAEncoding)):
-        o = outcome(lambda: [[bool(x) for x in r] for r in RegexMatcher(ptxt, encoding=enc).rolling_window(bnp.as_encoded_array(texts, enc), mode="same").tolist()])
-        if o != ("ok", want):
-            where = None
-            if o[0] == "ok" and [len(r) for r in o[1]] == [len(r) for r in want]:
-                for r, (w, g) in enumerate(zip(want, o[1])):
-                    for i, (a, b) in enumerate(zip(w, g)):
-                        if a != b and where is None:
-                            minlen = sum(1 if e["kind"] != "gap" else e["lo"] for e in pat)
-                            where = {"row": r, "pos": i, "want": a, "got": b, "window_runs_past_the_row": i + minlen > len(w), "last_row": r == len(want) - 1}
-            bad.append({"what": "RegexMatcher differs from matching the pattern inside each row", "tags": {"spec": "Regex", "op": "regex", "encoding": ename,
-                        "past_row_end": bool(where and where["window_runs_past_the_row"])},
-                        "vector": v, "case": {"texts": texts, "pattern": ptxt}, "expected": want, "observed": where or o})
-    return {"n": 2, "nt": [json.dumps(["regex", rows, ptxt])] if len(rows) > 1 else [], "bad": bad}
 
 
 def check_join(v):
@@ -387,11 +346,6 @@ def run(ctx):
                       invariants=["LengthKept", "OnlyVariantPositionsChange", "Emit"], properties=["OneLetter"], coverage=True)
         ctx.require_actions(res, "MC_Consensus", ["Add"])
         ctx.absorb(core.pmap(check_consensus, res.vectors, chunk=50))
-    res = ctx.tlc("MC_Regex", tag="MC_Regex", spec="Spec", workers=8,
-                  constants={"Letters": [1, 2, 3], "NRows": 2, "MaxLen": 3 if quick else 4, "Patterns": "<- PatSmall" if quick else "<- PatSet"},
-                  invariants=["RowLocal", "NothingPastTheEnd", "Emit"], properties=["Local"], coverage=True)
-    ctx.require_actions(res, "MC_Regex", ["NewRow", "AddLetter"])
-    ctx.absorb(core.pmap(check_regex, res.vectors, chunk=100))
     res = ctx.tlc("MC_Join", tag="MC_Join", spec="Spec", workers=4, constants={"Keys": [1, 2, 3] if quick else [1, 2, 3, 4], "MaxLeft": 3 if quick else 4, "MaxRight": 2 if quick else 3},
                   invariants=["Right", "PrefixRight", "Emit"], coverage=True)
     ctx.require_actions(res, "MC_Join", ["Step", "Finish"])
@@ -435,8 +389,6 @@ def replay(d):
     v = (d.get("vectors") or [d.get("vector")])[0]
     if d["tags"].get("spec") == "Matrix":
         r = check_matrix(v)
-    elif d["tags"].get("spec") == "Regex":
-        r = check_regex(v)
     elif d["tags"].get("spec") == "Consensus":
         r = check_consensus(v)
     elif d["tags"].get("spec") == "Csv":
